@@ -214,6 +214,24 @@ theorem stabilizeN_no_panic (f : List Nat → Res (List Nat)) (n : Nat) (s : Lis
     | err e => simp
     | panic => exact absurd hf (h s)
 
+/-- a panic of `stabilize` is a panic of the rule on one of the iterates it was applied to -/
+theorem stabilizeN_panic (f : List Nat → Res (List Nat)) (n : Nat) (s : List Nat)
+    (h : stabilizeN f n s = .panic) : ∃ k y, k < n ∧ iter f k s = .ok y ∧ f y = .panic := by
+  induction n generalizing s with
+  | zero => simp [stabilizeN] at h
+  | succ n ih =>
+    simp only [stabilizeN] at h
+    cases hf : f s with
+    | ok tmp =>
+      simp only [hf] at h
+      by_cases he : (tmp == s) = true
+      · simp [he] at h
+      · simp only [he] at h
+        obtain ⟨k, y, hk, h1, h2⟩ := ih tmp h
+        exact ⟨k + 1, y, by omega, by simp [iter, hf, h1], h2⟩
+    | err e => simp [hf] at h
+    | panic => exact ⟨0, s, by omega, rfl, hf⟩
+
 /-! ### the contract of `precis_core::profile::stabilize`: first application + three re-applications -/
 
 /-- Ok(x) only if x is reachable from s by repeated application (at most 3 steps) and f(x) = x -/
